@@ -94,11 +94,15 @@ class Cue(SymObject):
     def sym_getitem(self, interp, k):
         """s[:len(s) - len(pending_tags)]: s without its trailing opening tags - PROVIDED pending_tags
         is exactly their text, which is registered as a proof obligation"""
+        p = cur()
+        if isinstance(k, slice) and k.start is None and k.step is None and isinstance(k.stop, NegLen) and isinstance(k.stop.owner, Pending):
+            if p.branch(z3.Length(k.stop.owner.tags) == 0):
+                return Cue.of("")                      # s[:-0] == ''
+            k = slice(None, CutPoint(self, k.stop.owner))
         if not (isinstance(k, slice) and k.start is None and k.step is None and isinstance(k.stop, CutPoint)
                 and k.stop.whole is self):
             raise Inapplicable("cue text sliced other than s[:len(s) - len(pending_tags)]")
         pend = k.stop.pending
-        p = cur()
         n = z3.Length(self.stack)
         cond = z3.And(z3.Length(pend.tags) == self.ntrail, self.ntrail >= 0, self.ntrail <= n,
                       pend.tags == z3.SubSeq(self.stack, n - self.ntrail, self.ntrail))
@@ -110,12 +114,23 @@ class AbsLen:
     def __init__(self, owner):
         self.owner = owner
 
+    def __neg__(self):
+        return NegLen(self.owner)
+
     def __sub__(self, o):
         if isinstance(o, AbsLen) and isinstance(o.owner, Pending) and isinstance(self.owner, Cue):
             return CutPoint(self.owner, o.owner)
         if isinstance(o, int) and o == 0:
             return self
         raise Inapplicable("arithmetic on the length of an abstract text")
+
+
+class NegLen:
+    """-len(pending_tags): as a slice bound it cuts that many characters off the end - and EVERYTHING when
+    the length is zero (s[:-0] is s[:0])"""
+
+    def __init__(self, owner):
+        self.owner = owner
 
 
 class CutPoint:
